@@ -15,8 +15,8 @@ def prop(pid):
         cls.pid = pid; cls.statement = STATEMENTS[pid]; REG[pid] = cls(); return cls
     return deco
 TESTED_ONLY = {
- 'C01': ['a basis of exactly k+1 points, no two simplices sharing a basis, maxOrder = largest populated order: proved only for complexes on <= 4 points (kernel sweep); beyond that by the wf oracle after every step of every history (k+1 distinct faces of order k-1 is proved for every history of public operations)'],
- 'C02': ['the vertex-set reading of the star; effects and frames of restrict / add by basis / subdivide beyond 4 points (add by faces, bulk add without renaming, removal of one simplex and deleteSimplex are proved for every history); bulk add under a renaming; attribute read-back (oracle c02-pre/post)'],
+ 'C01': ['the vertex-set reading (basis of exactly k+1 points, no two simplices sharing a basis) is proved for every history of in-contract operations (points, add by basis, deletions, restrict, renames); after add by faces with caller-supplied faces, subdivide, bulk add, compose, and maxOrder = largest populated order: proved only for complexes on <= 4 points (kernel sweep); beyond that by the wf oracle after every step of every history'],
+ 'C02': ['the vertex-set reading of the star; that add by basis adds every missing subset (what it adds is proved to be new, inside the basis, and to leave everything else alone); effects and frames of restrict / subdivide beyond 4 points; bulk add under a renaming; attribute read-back (oracle c02-pre/post)'],
  'C03': ['d.d = 0 and boundary() of chains beyond 4 points (views oracle after every step); shapes, entries, cofaces = inverse of faces and basis = points of the closure are proved for every history'],
  'C04': ['the vertex-set reading of closure / star (subsets, supersets, 2^(k+1)-1 members), sortedness, lookups beyond 4 points; disjoint() beyond 3 points and for 4-tuples; returned names having the Python type they were created with (oracle c04); closure/star duality and no-repeats of the star are proved for every history'],
  'C05': ['continuation after a rejected call for requests with generated names / fresh dictionaries (twin-history oracle, up to generated names); atomicity of addSimplexWithBasis / relabel beyond the cases proved; a classification-complete invalid <=> rejected'],
